@@ -64,8 +64,8 @@ def snap_command(input_workload, output_file, ticks_per_second, force=False):
                 # fall just below the tick boundary they are on
                 ticks = Fraction(row['arrival_seconds'].strip()) * ticks_per_second
                 tick = math.floor(ticks)
-                if (tick + 1) - ticks < Fraction(1, 10**9):
-                    tick += 1  # within float noise of the next boundary
+                if (tick + 1) / ticks_per_second == float(row['arrival_seconds']):
+                    tick += 1  # the value already is the float of the next boundary
                 snapped = tick / ticks_per_second
                 row['arrival_seconds'] = snapped
 
